@@ -226,6 +226,11 @@ class G:
     def value(self, v, t, d):
         """an expression starting from [v : t]; -> (ast, type)"""
         r = self.r
+        if r.random() < 0.08 and d < 3:
+            # through an immediately called lambda: the parameter has the type of the argument, the call the type of the body
+            z = r.choice(["z", "len"])
+            b, bt = self.value(N(z), t, d + 1)
+            return call(lam(z, b), [v]), bt
         for _ in range(r.randrange(1, 5)):
             if t[0] == "c" and t[1] in self.s.fields:
                 f = r.choice(sorted(self.s.fields[t[1]]))
@@ -283,8 +288,13 @@ class G:
     def boolean(self, b, bt):
         if bt == ("p", "bool"):
             return b
-        if self.r.random() < 0.5:
+        k = self.r.randrange(4)
+        if k == 0:
             return gen.cmp(ast.Gt, b, C(1))
+        if k == 1:
+            return ast.UnaryOp(op=ast.Not(), operand=b)                 # `not x` is a boolean whatever x is
+        if k == 2:
+            return ast.UnaryOp(op=ast.Not(), operand=gen.cmp(ast.Gt, b, C(1)))
         return ast.BoolOp(op=ast.And(), values=[gen.cmp(ast.Lt, b, C(2)), C(True)])
 
     def scalarise(self, b, bt):
@@ -296,9 +306,15 @@ class G:
             rt = ("p", "float") if (bt[1] == "float" or isinstance(c, float) or o is ast.Div) else ("p", "int")
             return gen.binop(o, b, C(c)), rt
         if k == 1:
+            if r.random() < 0.4:        # a key given twice: the last one is the value
+                return A(gen.dct([(C("f"), C("s")), (C("g"), C(1)), (C("f"), b)]), "f"), bt
             return A(gen.dct([(C("f"), b), (C("g"), C(1))]), "f"), bt
         if k == 2:
+            if r.random() < 0.4:
+                return gen.sub(gen.dct([(C("f"), C(1)), (C("f"), b)]), C("f")), bt
             return gen.sub(gen.dct([(C("f"), b)]), C("f")), bt
+        if k == 4 and bt[0] != "any":
+            return ast.UnaryOp(op=ast.Not(), operand=b), ("p", "bool")
         if k == 3 and bt[0] != "any":
             return ast.IfExp(test=gen.cmp(ast.Gt, C(1), C(0)), body=b, orelse=gen.clone(b)), bt
         return b, bt
@@ -334,7 +350,7 @@ def run(ctx):
                     want = el
             else:
                 b = g.boolean(b, bt) if ctx.rng.random() < 0.8 else b
-                want = ("c", "Ev", []) if isinstance(b, (ast.Compare, ast.BoolOp)) or bt == ("p", "bool") else "refuse"
+                want = ("c", "Ev", []) if isinstance(b, (ast.Compare, ast.BoolOp, ast.UnaryOp)) or bt == ("p", "bool") else "refuse"
             cases.append((op, lam(rv, b), want, g.interesting))
         answers = ctx.driver.call("op", [tc.model_requests(w, op, item_sx, q) for op, q, _, _ in cases])
         for (op, q, want, interesting), ans in zip(cases, answers):
